@@ -17,7 +17,7 @@ NOT_APPLICABLE = {
 TEXT = {
     'C01': ('exploration', '7 C01', "Seeded search over DAG shapes x serial / coordinator-simulation / simulated fork / simulated spawn x worker counts x cache pre-states (incl. bust_cache) x completion orders x 16 hash-seed classes; every returned dict is compared with a reference evaluator that works on the specification only; in a third of the runs the same task objects are handed to a second run_tasks call (new Lab, no storage, another context); task results include None; some tasks start a multiprocessing child of their own; on the in-process substrates the storage directory is sometimes a relative path while tasks change the working directory. Sampling: a clean batch is evidence, not proof.",
             "S2 stub fidelity (SimProcess/SimQueue model CPython 3.12 multiprocessing on Linux); spawn flavour really pickles task and results; values are unique per node so a foreign result cannot compare equal"),
-    'C02': ('exploration', '7 C02', "Every run() begin is checked against the finish instant of every dependency (global event sequence numbers, not time) and every value read inside run() against that dependency's real result of this run; failing (exceptions, sys.exit) and dying (SIGKILL, os._exit with status 0/1) dependencies are injected; a second run_tasks call on the same task objects checks that nothing read in the first call leaks into it.",
+    'C02': ('exploration', '7 C02', "Every run() begin is checked against the finish instant of every dependency (global event sequence numbers, not time) and every value read inside run() against that dependency's real result of this run; failing (exceptions, sys.exit) and dying (SIGKILL, os._exit with status 0/1) dependencies and storage read errors while a cached dependency is loaded are injected; a second run_tasks call on the same task objects checks that nothing read in the first call leaks into it.",
             "finish instant of a dependency = its run() end / failure / kill event recorded by the probe; interleavings finer than seam operations are not generated"),
     'C03': ('exploration', '7 C03', "Per distinct node at most one run() begin and one cache load (seen at the Storage seam), never both; executed/loaded sets equal a reference planner over (spec, cached subset, bust flag); every reachable instance carries result_meta; in a third of the runs a second call on the same Lab object and task objects must load what the first call cached.",
             "cache pre-state is established by a real earlier serial run plus deletion of entries; the planner is an independent model over the specification"),
